@@ -180,6 +180,7 @@ impl Machine {
             g.life += 1;
             g.life_interactions = 0;
             g.waits_for = 0;
+            g.life_clock = 0;
             g.runaway = false;
             g.crashed = false;
             g.gates.clear();
